@@ -61,8 +61,9 @@ def case_gen(draw, files=True):
         case['rewrite'] = draw(st.integers(0, 3)) == 0
         case['skip'] = draw(st.sampled_from([None, 0, 1, 2]))
         case['odict'] = draw(st.integers(0, 3)) == 0
+        case['bare_name'] = draw(st.integers(0, 3)) == 0
         case['encoding'] = draw(st.sampled_from(['utf-8', 'utf-8', 'utf-16', 'utf-32']))
-        case['bigitem'] = draw(st.sampled_from([0, 0, 0, 66000, 140000]))
+        case['bigitem'] = draw(st.sampled_from([0, 0, 0, 66000, 140000, 300000]))
     return case
 
 
@@ -180,8 +181,12 @@ def check_files(case):
         opened.append(mode)
         fo = open(f, mode)
         return ShortReads(fo) if case['open_obj'] == 'short' else fo
+    cwd = os.getcwd()
     try:
         f = os.path.join(d, 'x.json')
+        if case.get('bare_name'):
+            os.chdir(d)         # a file name without any directory part, relative to the current directory
+            f = 'x.json'
         kw = {'open_obj': my_open} if case['open_obj'] else {}
         if case.get('rewrite'):
             # the path already holds an earlier, LONGER export written with the same settings: dump_to_file replaces it
@@ -237,6 +242,7 @@ def check_files(case):
         if case['open_obj'] and not (any('r' in m for m in opened) and any(('w' in m or 'a' in m or 'x' in m) for m in opened)):
             raise Violation('the custom open_obj was not used for both the dump and the load (modes seen: %r)' % opened, **ctx)
     finally:
+        os.chdir(cwd)
         shutil.rmtree(d, ignore_errors=True)
     lab = labels_of(case['items'])
     labels = lab + (['path-rewritten'] if case.get('rewrite') else []) + (['two-files-one-pass'] if case.get('twin') and not case['open_obj'] else []) + ['compression:%s' % comp, 'file>64K' if size > 65536 else 'file<=64K', 'open_obj:%s' % case['open_obj'], 'enc:' + enc]
